@@ -107,6 +107,8 @@ struct Model {
     /// token-level approvals the harness granted; only used to propose operations
     approved: BTreeMap<u32, usize>,
     seed_refused: bool,
+    /// the id u32::MAX has been issued: no further sequential id exists
+    depleted: bool,
 }
 
 impl Model {
@@ -197,13 +199,22 @@ impl Model {
     }
 }
 
+#[derive(Clone, Copy, Debug, PartialEq, Eq)]
+enum Seed {
+    Empty,
+    /// consecutive: one initial batch of this size minted to A
+    Batch(u32),
+    /// sequential flavours: the id counter was advanced to this value through the library's public
+    /// `sequential::increment_token_id` (ids reserved and never minted = all earlier tokens gone)
+    CounterAt(u32),
+}
+
 struct Nft {
     flavour: Flavour,
     thorough: bool,
     /// world name
     name: &'static str,
-    /// consecutive: size of the initial batch (minted to A) per seed; 0 = empty contract
-    seed_batches: Vec<u32>,
+    seeds: Vec<Seed>,
     /// accounts that receive mints
     mint_to: Vec<usize>,
     batch_sizes: Vec<u32>,
@@ -255,17 +266,18 @@ fn batch_ids(b: &Batch) -> Vec<u32> {
         v.push(l - 1);
     }
     v.push(l);
-    let m = (f / ITEM + 1) * ITEM;
-    if m <= l {
-        v.push(m - 1);
-        v.push(m);
+    let (f64, l64) = (f as u64, l as u64);
+    let m = (f64 / ITEM as u64 + 1) * ITEM as u64;
+    if m <= l64 {
+        v.push(m as u32 - 1);
+        v.push(m as u32);
     }
-    let m1 = (f / BUCKET + 1) * BUCKET;
-    if m1 <= l {
-        v.push(m1 - 1);
-        v.push(m1);
+    let m1 = (f64 / BUCKET as u64 + 1) * BUCKET as u64;
+    if m1 <= l64 {
+        v.push(m1 as u32 - 1);
+        v.push(m1 as u32);
         let m2 = (l / BUCKET) * BUCKET;
-        if m2 > m1 {
+        if m2 as u64 > m1 {
             v.push(m2 - 1);
             v.push(m2);
         }
@@ -293,7 +305,10 @@ impl Nft {
         for b in &m.batches {
             v.extend(batch_ids(b));
         }
-        v.push(m.next_id); // an id that was never issued
+        if !m.depleted {
+            v.push(m.next_id); // an id that was never issued
+        }
+        v.push(0);
         dedup(v)
     }
 
@@ -312,28 +327,42 @@ impl Nft {
             }
             return s.into_iter().collect();
         }
-        let top = m.next_id.saturating_add(2);
         if self.full_scan(m) {
-            return (0..top).collect();
+            return (0..m.next_id + 2).collect();
         }
+        // large id spaces: every id whose answer can differ from its neighbours'
+        let top: u64 = if m.depleted { u32::MAX as u64 } else { (m.next_id as u64 + 1).min(u32::MAX as u64) };
         let mut base: BTreeSet<u32> = m.touched.clone();
         for b in &m.batches {
             base.insert(b.first);
             base.insert(b.last);
         }
         base.insert(m.next_id);
+        base.insert(0);
+        let mut w: BTreeSet<u64> = BTreeSet::new();
+        let around64 = |w: &mut BTreeSet<u64>, x: u64| {
+            for d in 0..=2u64 {
+                w.insert(x.saturating_sub(d));
+                w.insert(x + d);
+            }
+        };
         for x in base {
-            around(&mut s, x);
-            let m32 = x / ITEM * ITEM;
-            around(&mut s, m32);
-            around(&mut s, m32 + ITEM);
+            let x = x as u64;
+            around64(&mut w, x);
+            if self.flavour == Flavour::Consecutive {
+                let m32 = x / ITEM as u64 * ITEM as u64;
+                around64(&mut w, m32);
+                around64(&mut w, m32 + ITEM as u64);
+            }
         }
-        let mut k = 0u32;
-        while k * BUCKET <= top + BUCKET {
-            around(&mut s, k * BUCKET);
-            k += 1;
+        if self.flavour == Flavour::Consecutive {
+            let mut k = 0u64;
+            while k * BUCKET as u64 <= top + BUCKET as u64 {
+                around64(&mut w, k * BUCKET as u64);
+                k += 1;
+            }
         }
-        s.into_iter().filter(|x| *x < top).collect()
+        w.into_iter().filter(|x| *x <= top).map(|x| x as u32).collect()
     }
 
     fn call(&self, i: &Inst, op: &Op) -> (&'static str, SVec<Val>) {
@@ -369,9 +398,12 @@ impl Nft {
         match op {
             Op::Mint { to } => {
                 let id = m.next_id;
-                ensure!(id < u32::MAX, "ids-depleted", "sequential mint accepted with all ids issued");
+                ensure!(!m.depleted, "ids-never-reused", "sequential mint accepted after every u32 id had been issued");
                 m.batches.push(Batch { first: id, last: id, to: *to });
-                m.next_id = id + 1;
+                match id.checked_add(1) {
+                    Some(n) => m.next_id = n,
+                    None => m.depleted = true,
+                }
             }
             Op::MintId { to, id } => {
                 // proposed only for ids without an owner (fresh, or burned before)
@@ -379,12 +411,15 @@ impl Nft {
             }
             Op::BatchMint { to, n } => {
                 let first = m.next_id;
-                let Some(next) = first.checked_add(*n) else {
-                    return Err(Violation::new("ids-depleted", format!("{op:?} accepted beyond u32::MAX")));
-                };
                 ensure!(*n >= 1, "empty-batch", "{:?} accepted", op);
-                m.batches.push(Batch { first, last: next - 1, to: *to });
-                m.next_id = next;
+                let Some(last) = first.checked_add(*n - 1).filter(|_| !m.depleted) else {
+                    return Err(Violation::new("ids-never-reused", format!("{op:?} accepted although fewer than {n} unissued ids are left")));
+                };
+                m.batches.push(Batch { first, last, to: *to });
+                match last.checked_add(1) {
+                    Some(x) => m.next_id = x,
+                    None => m.depleted = true,
+                }
             }
             Op::Transfer { from, to, id, .. } | Op::TransferFrom { from, to, id, .. } => {
                 ensure!(
@@ -409,7 +444,6 @@ impl Nft {
                     holder(m, *id)
                 );
                 m.set(*id, None);
-                if *id > 0 && m.owner(*id - 1) == Some(*from) { m.set(*id - 1, None); }
                 m.touched.insert(*id);
                 m.approved.remove(id);
             }
@@ -559,12 +593,13 @@ impl World for Nft {
         format!("{}{}", self.name, if self.thorough { "-t" } else { "" })
     }
     fn seeds(&self) -> usize {
-        self.seed_batches.len()
+        self.seeds.len()
     }
     fn seed_name(&self, s: usize) -> String {
-        match self.seed_batches[s] {
-            0 => "empty".to_string(),
-            n => format!("batch of {n} minted to A"),
+        match self.seeds[s] {
+            Seed::Empty => "empty".to_string(),
+            Seed::Batch(n) => format!("batch of {n} minted to A"),
+            Seed::CounterAt(n) => format!("id counter at {n}, no token left"),
         }
     }
 
@@ -597,14 +632,23 @@ impl World for Nft {
             touched: BTreeSet::new(),
             approved: BTreeMap::new(),
             seed_refused: false,
+            depleted: false,
         };
-        let n = self.seed_batches[seed];
-        if n > 0 {
-            let op = Op::BatchMint { to: 0, n };
-            if self.exec(&inst, &op).is_ok() {
-                self.accept(&mut m, &op).expect("seed batch");
-            } else {
-                m.seed_refused = true;
+        match self.seeds[seed] {
+            Seed::Empty => {}
+            Seed::Batch(n) => {
+                let op = Op::BatchMint { to: 0, n };
+                if self.exec(&inst, &op).is_ok() {
+                    self.accept(&mut m, &op).expect("seed batch");
+                } else {
+                    m.seed_refused = true;
+                }
+            }
+            Seed::CounterAt(n) => {
+                e.as_contract(&inst.c, || {
+                    stellar_tokens::non_fungible::sequential::increment_token_id(e, n);
+                });
+                m.next_id = n;
             }
         }
         (inst, m)
@@ -722,10 +766,11 @@ impl World for Nft {
             // informational: operations the model would have allowed
             let legit = match op {
                 Op::Transfer { from, id, .. } | Op::TransferFrom { from, id, .. } | Op::Burn { from, id, .. } | Op::BurnFrom { from, id, .. } => m.owner(*id) == Some(*from),
+                Op::Mint { .. } | Op::BatchMint { .. } => m.next_id < u32::MAX - 32_000,
                 _ => true,
             };
             if legit {
-                cx.stats.count("refused-although-legit-in-model", 1);
+                cx.stats.count("refusals-the-model-would-have-allowed", 1);
             }
             return Ok(false);
         }
@@ -745,10 +790,11 @@ impl World for Nft {
     /// Batch structure decides the proposed ids, the touched set decides the queried ids of the
     /// large seeds; storage does not always determine them (a burned marker is gone).
     fn model_key(&self, m: &Model) -> u64 {
+        let edges: Vec<(u32, u32)> = m.batches.iter().map(|b| (b.first, b.last)).collect();
         if self.full_scan(m) || self.explicit() {
-            vh::engine::dig(&m.batches)
+            vh::engine::dig(&edges)
         } else {
-            vh::engine::dig(&(&m.batches, &m.touched))
+            vh::engine::dig(&(&edges, &m.touched))
         }
     }
 }
@@ -784,7 +830,7 @@ fn main() {
                 flavour,
                 thorough: th,
                 name,
-                seed_batches: vec![0],
+                seeds: if matches!(flavour, Flavour::BaseSeq | Flavour::EnumSeq) { vec![Seed::Empty, Seed::CounterAt(u32::MAX - 2)] } else { vec![Seed::Empty] },
                 mint_to: mint_to.clone(),
                 batch_sizes: vec![1, 2, 3, 5],
                 rich: th,
@@ -806,11 +852,11 @@ fn main() {
                 deep.lean = true;
                 r.world(&deep, &Bounds::new(d + 1, wall));
             }
-            let seeded = |name: &'static str, seeds: Vec<u32>| Nft {
+            let seeded = |name: &'static str, sizes: Vec<u32>| Nft {
                 flavour: Flavour::Consecutive,
                 thorough: th,
                 name,
-                seed_batches: seeds,
+                seeds: sizes.into_iter().map(Seed::Batch).collect(),
                 mint_to: vec![0, 1],
                 batch_sizes: vec![1, 2, 3, 5],
                 rich: false,
